@@ -42,7 +42,7 @@ def relen(unit: bytes, rnd: random.Random) -> bytes:
 
 def mutate(unit: bytes, rnd: random.Random) -> bytes:
     b = bytearray(unit)
-    k = rnd.randrange(6)
+    k = rnd.randrange(7)
     if k == 0 and len(b) > 4:  # flip one interior byte, keep the envelope
         p = rnd.randrange(2, len(b))
         b[p] ^= 1 << rnd.randrange(8)
@@ -59,6 +59,10 @@ def mutate(unit: bytes, rnd: random.Random) -> bytes:
         inner = bytes(b[2:p]) + bytes(b[p + 1:])
         if b[1] < 128 and len(inner) < 128:
             b = bytearray(b[:1] + bytes([len(inner)]) + inner)
+    elif k == 5 and len(b) > 8:  # an octet of some text / value gets its high bit set (invalid UTF-8 in text fields)
+        for _ in range(rnd.choice((1, 1, 2))):
+            p = rnd.randrange(4, len(b))
+            b[p] |= 0x80
     else:
         b[-1] ^= 0xFF
     return bytes(b)
@@ -145,6 +149,16 @@ class Recorder:
 # ------------------------------------------------------------------------------------------------------------------
 # scripted peers
 # ------------------------------------------------------------------------------------------------------------------
+def small_unit(kind: str, mid: int, rnd: random.Random, limit: int = 3000) -> t.Tuple[bytes, t.Dict[str, t.Any]]:
+    """A unit of at most `limit` octets (corrupted streams are framed octet by octet by the trace specification; 64 kB
+    payloads belong to the well-formed chunking scenarios)."""
+    for _ in range(8):
+        u = unit_of(sess.concrete(kind, mid, rnd), rnd)
+        if len(u[0]) <= limit:
+            return u
+    return u
+
+
 def unit_of(msg: t.Any, rnd: random.Random, alt: bool = True) -> t.Tuple[bytes, t.Dict[str, t.Any]]:
     import sansldap._messages as M
 
@@ -254,6 +268,7 @@ def scenario_stream(rec: Recorder, role: str, rnd: random.Random, garbage_p: flo
         if rnd.random() < 0.15:
             units.append(unit_of(sess.concrete("unbind", 0, rnd), rnd))
     if garbage_p > 0 and units:
+        units = [u if len(u[0]) <= 3000 else small_unit(u[1]["k"], u[1]["id"], rnd) for u in units]
         for j in range(len(units)):
             if rnd.random() < garbage_p:
                 units[j] = bad_unit(rnd, units[j][0])
@@ -366,12 +381,91 @@ def scenario_calls(rec: Recorder, role: str, rnd: random.Random) -> None:
     rec.drain(None)
 
 
+ALL_KINDS = ("bindReq", "searchReq", "extReq", "unbind", "bindRespOk", "bindRespProg", "extResp", "notice", "entry", "ref", "done")
+
+
+def scenario_anykind(rec: Recorder, role: str, rnd: random.Random) -> None:
+    """Every kind of message - also those of the wrong direction - arrives at a session with operations in progress,
+    intact or with one text octet damaged: the outcome is a message list or a ProtocolError, nothing else."""
+    rec.new(role, "anykind")
+    ids = [1]
+    if role == "client":
+        for k in ("extReq", "searchReq"):
+            e = rec.call({"op": "send", "k": k})
+            if e["res"] == "ok":
+                ids.append(e["ret"])
+        rec.drain(None)
+    kind = rnd.choice(ALL_KINDS)
+    unit = small_unit(kind, rnd.choice(ids), rnd)
+    if rnd.random() < 0.7:
+        b = bytearray(unit[0])
+        for _ in range(rnd.choice((1, 1, 2, 3))):
+            b[rnd.randrange(min(6, len(b) - 1), len(b))] |= 0x80
+        unit = (bytes(b), {"k": "garbage", "id": 0, "valid": False, "dig": ""})
+    rec.stream([unit[1]])
+    for p in chunkings(unit[0], [0], rnd, rnd.choice((0, 0, 2, 3))):
+        rec.recv(p)
+
+
+def marked_messages(mid: int) -> t.List[t.Tuple[str, t.Any, t.List[bytes]]]:
+    """One message per kind whose text fields are distinct ASCII markers: (kind, message, markers)."""
+    import sansldap as s
+    import sansldap._messages as M
+
+    ctl = [s.LDAPControl("1.2.MARKC", True, b"v")]
+    res = lambda code: M.LDAPResult(M.LDAPResultCode(code), "dc=MARKM", "text MARKD", ["ldap://MARKR"])  # noqa: E731
+    out = [
+        ("bindReq", M.BindRequest(mid, ctl, 3, "cn=MARKN", s.SimpleCredential("MARKP")), [b"MARKN", b"MARKP", b"MARKC"]),
+        ("bindReq", M.BindRequest(mid, [], 3, "cn=MARKN", s.SaslCredential("MARKX", b"cred")), [b"MARKX"]),
+        ("searchReq", M.SearchRequest(mid, ctl, "dc=MARKB", M.SearchScope.SUBTREE, M.DereferencingPolicy.NEVER, 0, 0, False,
+                                      s.FilterAnd([s.FilterEquality("MARKA", b"v"), s.FilterExtensibleMatch("MARKU", "MARKT", b"v", True), s.FilterPresent("MARKS")]), ["MARKQ"]),
+         [b"MARKB", b"MARKA", b"MARKU", b"MARKT", b"MARKS", b"MARKQ"]),
+        ("extReq", M.ExtendedRequest(mid, ctl, "1.2.MARKO", b"v"), [b"MARKO", b"MARKC"]),
+        ("unbind", M.UnbindRequest(mid, ctl), [b"MARKC"]),
+        ("bindRespOk", M.BindResponse(mid, ctl, res(0), b"x"), [b"MARKM", b"MARKD", b"MARKR", b"MARKC"]),
+        ("bindRespProg", M.BindResponse(mid, [], res(14), b"x"), [b"MARKM", b"MARKD", b"MARKR"]),
+        ("extResp", M.ExtendedResponse(mid, ctl, res(0), "1.2.MARKO", b"v"), [b"MARKM", b"MARKD", b"MARKR", b"MARKO"]),
+        ("notice", M.ExtendedResponse(mid, [], res(2), proj.NOTICE_OID, None), [b"MARKM", b"MARKD", b"MARKR"]),
+        ("entry", M.SearchResultEntry(mid, ctl, "cn=MARKE", [M.PartialAttribute("MARKF", [b"v"])]), [b"MARKE", b"MARKF", b"MARKC"]),
+        ("ref", M.SearchResultReference(mid, [], ["ldap://MARKG", "ldap://MARKH"]), [b"MARKG", b"MARKH"]),
+        ("done", M.SearchResultDone(mid, [], res(0)), [b"MARKM", b"MARKD", b"MARKR"]),
+    ]
+    return out
+
+
+def scenario_textdamage(rec: Recorder, rnd: random.Random) -> None:
+    """Every text field of every kind of message, with one octet replaced by an octet that makes it invalid UTF-8,
+    delivered to a client and to a server that have operations in progress (C05: a list or ProtocolError, nothing else)."""
+    import sansldap._messages as M
+
+    for role in ("client", "server"):
+        for kind, msg, markers in marked_messages(2):
+            for mk in markers:
+                rec.new(role, "textdamage")
+                if role == "client":
+                    for k in ("extReq", "searchReq"):
+                        rec.call({"op": "send", "k": k})
+                    rec.drain(None)
+                b = bytearray(msg.pack(M.PackingOptions()))
+                pos = bytes(b).find(mk)
+                if pos < 0:
+                    continue
+                b[pos + rnd.randrange(len(mk))] = rnd.choice((0xFF, 0x80, 0xC3, 0xED, 0xF5))
+                rec.stream([{"k": "garbage", "id": 0, "valid": False, "dig": ""}])
+                for piece in chunkings(bytes(b), [0], rnd, rnd.choice((0, 0, 2))):
+                    rec.recv(piece)
+
+
 def drive(seed: int, n_traces: int) -> t.List[t.Dict[str, t.Any]]:
     rnd = random.Random(seed)
     rec = Recorder(rnd)
+    scenario_textdamage(rec, rnd)
     for j in range(n_traces):
         role = "client" if rnd.random() < 0.5 else "server"
         u = j % 10
+        if j % 5 == 4:
+            for _ in range(4):
+                scenario_anykind(rec, rnd.choice(("client", "server")), rnd)
         if u < 4:
             scenario_stream(rec, role, rnd, garbage_p=0.0, violate_p=0.03)
         elif u < 6:
